@@ -1,3 +1,4 @@
+import Gengo.Model.Order
 /-!
 Run-time library of the Go → Lean translation (`harness/cmd/go2lean`).  `Gengo/Gen/Code.lean` — regenerated from
 /repo's sources on every run — is written against exactly these definitions; `Gengo/Props/Tr*.lean` proves every
@@ -89,19 +90,9 @@ def mapSet [BEq κ] (m : List (κ × ν)) (k : κ) (v : ν) : List (κ × ν) :=
 /-- `v, ok := m[k]` -/
 def mapHas [BEq κ] (m : List (κ × ν)) (k : κ) : Bool := m.any (·.1 == k)
 
-/-- lexicographic `<` on strings by code point (= Go's byte-wise `<` on valid UTF-8) -/
-def strLt : Str → Str → Bool
-  | [], [] => false
-  | [], _ :: _ => true
-  | _ :: _, [] => false
-  | a :: as, b :: bs => if a.toNat < b.toNat then true else if b.toNat < a.toNat then false else strLt as bs
-
-def insertSorted (x : Str) : List Str → List Str
-  | [] => [x]
-  | y :: ys => if strLt y x then y :: insertSorted x ys else x :: y :: ys
-
-/-- `slices.Sorted` / `sort.Strings` on strings: any correct sort produces this list -/
-def sortStrs (l : List Str) : List Str := l.foldr insertSorted []
+/-- `slices.Sorted` / `sort.Strings`: ascending in Go's string order (`Gengo.lexLe`, code points = bytes on valid
+    UTF-8).  The translated callers sort the keys of a map, which are distinct: the sorted list is then unique. -/
+def sortStrs (l : List Str) : List Str := Gengo.sortBy id l
 
 /-- `0 … n-1` (`for i := range n`) -/
 def intRange (n : Int) : List Int := (List.range n.toNat).map Int.ofNat
